@@ -775,6 +775,8 @@ func (ctx Ctx) callExpr(s *ast.CallExpr) coq.Expr {
 				msg = constant.StringVal(v)
 			}
 		}
+		// the message is printed between quotes: double the quotes it contains
+		msg = strings.ReplaceAll(msg, "\"", "\"\"")
 		return coq.NewCallExpr(coq.GallinaIdent("Panic"), coq.GallinaString(msg))
 	}
 	// Special case for *sync.NewCond
